@@ -230,7 +230,7 @@ PROPS = {
         "real_vs_stub": "real: DB API, planner, txn layer, badger in-memory (race-instrumented build of everything); the scheduler parks real goroutines at intercepted store operations - who runs is decided by the plan, never by the Go scheduler; not run: net.Peer (its unsynchronised replicator map is not reached by this check)",
         "assumptions": ASSUME_COMMON + ["the order of a task's own storage operations depends on Go map iteration inside DefraDB and is not under the seed's control; the schedule (which task runs at each step) and the calls' results are",
                                         "a race report is genuine whenever it appears, but whether the detector still remembers the first access when the second arrives is not decided by the seed: replay repeats the schedule up to 20 times"],
-        "probes": ["sched_steps", "calls_ok", "calls_conflict", "histories_linearizable", "linearizability_inconclusive", "runs_over_step_budget", "foreign_goroutine_store_ops"],
+        "probes": ["sched_steps", "calls_ok", "calls_conflict", "histories_linearizable", "kept_indexes_checked"],
         "quick": {"count": 20, "budget_s": 90, "workers": 16},
         "thorough": {"count": 1000000, "budget_s": 1500, "workers": 16},
         "text": "No data race report with a frame in DefraDB or its dependencies, no panic, and the recorded history (invoke/return stamped with the scheduler's event counter, final reads appended) is linearizable w.r.t. a sequential per-document model in which a call that reported a conflict is a no-op and a successful call has its effect - so counters end at the sum of the successful increments.",
